@@ -567,6 +567,31 @@ class FullLib(Lib):
         self.move(it, src, dst)
         return dst
 
+    def c_shutil_copyfile(self, it, src, dst, **kw):
+        """copyfile = open(dst, 'wb') (truncating it), write the source's bytes, close."""
+        s_loc = self.path_loc(it, src)
+        self.maybe_fault(it, "open-r", s_loc)
+        sst = self.fs_get(it, s_loc)
+        if not it.ctx.branch(T.present(sst)):
+            it.raise_("FileNotFoundError")
+        h = self.open(it, dst, "wb")
+        self.file_write(it, h, VBytes(T.as_text(sst)))
+        self.file_close(it, h)
+        return dst
+
+    c_shutil_copy = c_shutil_copyfile
+    c_shutil_copy2 = c_shutil_copyfile
+
+    def c_os_rename(self, it, src, dst):
+        self.move(it, src, dst)
+        return NONE
+
+    c_os_replace = c_os_rename
+
+    def c_os_unlink(self, it, p):
+        self.remove(it, p)
+        return NONE
+
     def c_open(self, it, p, mode=None, encoding=None, **kw):
         return self.open(it, p, mode if mode is not None else "r")
 
@@ -812,6 +837,32 @@ class FullLib(Lib):
             return NONE
         if name in ("exists", "is_file"):
             return VBool(self.exists(it, p))
+        if name == "is_dir":
+            return self.c_os_path_isdir(it, p)
+        if name in ("rename", "replace"):
+            self.move(it, p, args[0])
+            return args[0]
+        if name == "unlink":
+            if kwargs.get("missing_ok") is not None and \
+                    z3.is_true(z3.simplify(self.truth(it, kwargs["missing_ok"]))):
+                if not it.ctx.branch(self.isfile(it, p)):
+                    return NONE
+            self.remove(it, p)
+            return NONE
+        if name == "open":
+            return self.open(it, p, args[0] if args else kwargs.get("mode", "r"))
+        if name in ("write_text", "write_bytes"):
+            h = self.open(it, p, "w" if name == "write_text" else "wb")
+            self.file_write(it, h, args[0])
+            self.file_close(it, h)
+            return NONE
+        if name in ("read_text", "read_bytes"):
+            h = self.open(it, p, "r" if name == "read_text" else "rb")
+            r = self.file_method(it, h, "read", [], {})
+            self.file_close(it, h)
+            return r
+        if name == "stat":
+            return self.c_os_stat(it, p)
         raise Undecided(f"Path.{name}")
 
     # ---- pieces of Path names:  path.stem + "_delete" + path.suffix -----------------------------
@@ -1351,8 +1402,9 @@ class DirLoopLib(LoopLib):
         from .contract import clone
         ctx = it.ctx
         d, fs_entry, base = seq.info["d"], seq.info["fs"], seq.info["base"]
-        if s.orelse or _has_ctrl(s.body):
-            raise Undecided("break/continue/return in a directory loop")
+        if s.orelse or any(isinstance(x, (ast.Break, ast.Return, ast.Yield))
+                           for b in s.body for x in ast.walk(b)):
+            raise Undecided("break/return in a directory loop")
         who = ctx.callstack[-1] if ctx.callstack else it.top
         # precondition of the rule: no deletion-marker leftovers in the directory, and the
         # directory has not changed since it was listed
@@ -1366,7 +1418,34 @@ class DirLoopLib(LoopLib):
         done = ctx.fresh("done", z3.ArraySort(T.S, T.B))
         e = T.mkloc(z3.IntVal(T.K_META), d, n, z3.IntVal(0))
         lists_before = {k: len(v.items) for k, v in _all_lists(env)}
-        if not ctx.spec_mode and ctx.fork(2) == 1:
+        which = 0 if ctx.spec_mode else ctx.fork(3)
+        if which == 2:
+            # lemma path: an entry that was listed but has been deleted since by another caller
+            # (the listing is taken outside the document lock): the body must cope - no error a
+            # sequential run cannot produce (C12) and nothing left locked (C08)
+            ctx.assume(T.is_Absent(z3.Select(ctx.st.fs, e)))
+            ctx.assume(T.ishex(n))
+            own0 = dict(ctx.st.own)
+            it.assign(s.target, VPath(A_METADATA, (("shard", d), ("str", n))), env)
+            try:
+                it.exec_block(s.body, env)
+                raised = None
+            except ContinueSig:
+                raised = None
+            except PyRaise as pr:
+                raised = pr.exc.cls
+            if raised is not None and not (ctx.__dict__.get("fault_mode") or {}).get("injected"):
+                ctx.fail(f"{who}/loop-foreach/vanished-entry-is-tolerated",
+                         f"the body raises {raised} for an entry deleted since the listing",
+                         props=("C12", "C11"))
+            else:
+                ctx.oblige(f"{who}/loop-foreach/vanished-entry-is-tolerated", z3.BoolVal(True),
+                           props=("C12", "C11"))
+            ctx.oblige(f"{who}/loop-foreach/locks-restored",
+                       z3.And(*[ctx.st.own[c] == own0[c] for c in own0]),
+                       detail="entry deleted since the listing", props=("C08", "C12"))
+            raise LemmaDone()
+        if which == 1:
             # lemma path: the body for one arbitrary entry, from the generalised state
             ctx.st.fs = meta_marked_fs(fs_entry, d, done)
             ctx.assume(z3.Not(z3.Select(done, n)))
@@ -1377,6 +1456,8 @@ class DirLoopLib(LoopLib):
             ev0 = len(ctx.st.events)
             try:
                 it.exec_block(s.body, env)
+                raised = None
+            except ContinueSig:
                 raised = None
             except PyRaise as pr:
                 raised = pr.exc.cls
